@@ -16,13 +16,18 @@ TECHNIQUE = "Lean 4 totality of the parser/compiler model + theorems on error lo
 LEVEL_TEXT = ("The parser/compiler model is a total Lean function whose result type lists every outcome (recipe, syntax error, the two compile errors, and "
               "'undocumented exception'); theorems: every reported offset maps to an existing line and a column within or just past it, the characters "
               "before the offset are exactly the earlier lines plus column-1 characters, and the snippet is that line; the model's outcome kind and "
-              "position are tied to compile() on mutated, truncated and random text. That no undocumented exception escapes is false on some inputs "
+              "position are tied to compile() on mutated, truncated and random text. Syntax errors are located too (C07c): the model parseE carries peggie's "
+              "furthest-failure offset (the largest offset at which a terminal of the grammar was tried and failed, abandoned alternatives included) and is proved "
+              "to accept exactly the texts of the plain parser with the same AST (parseE_erase), to report an offset inside the text or at its end on an "
+              "existing line whose text is the quoted line (syntaxError_offset_le, syntaxError_line_exists, compile_syntax_error_located) and never before a "
+              "prefix of complete statements that is accepted on its own (syntaxError_after_accepted_prefix); line, column and quoted line of every "
+              "ParseError are compared exactly with the model. That no undocumented exception escapes is false on some inputs "
               "(recorded findings); outside them it is checked by the sweep over arbitrary text and Markdown documents.")
 LEVEL_NOTE = ("Partial: the interpreter's recursion limit, wall-clock time and exceptions inside marko cannot be exhibited by a total Lean function; they are "
               "covered only by the oracle sweep (search). For the model it IS a theorem that compile returns a recipe or one of the three documented "
               "located errors for every input (compile_documented_outcomes, compile_no_internal, parse_never_zeroDivision) and that every reported "
               "offset lies inside the reported block's text (compile_error_in_source). Trusted: Lean kernel, peggie PEG semantics as exercised.")
-LEAN_MODULES = ["RecipeGrid.Props.C07", "RecipeGrid.Props.C07b"]
+LEAN_MODULES = ["RecipeGrid.Props.C07", "RecipeGrid.Props.C07b", "RecipeGrid.Props.C07c"]
 SOURCES = ["recipe_grid/parser/__init__.py", "recipe_grid/parser/grammar.py", "recipe_grid/parser/grammar.peg", "recipe_grid/parser/ast.py",
            "recipe_grid/compiler.py", "recipe_grid/markdown.py"]
 RULE = ("arbitrary text: token soups incl. Unicode, every kind of single-edit mutation of valid descriptions, prefixes and suffixes, nesting up to 30, texts up "
@@ -73,6 +78,24 @@ def correspondence(run):
     for _ in range(run.budget(150, 3000)):
         tl.append([parser_corr.gen_soup(rng)])
     tl.extend([t] for t in parser_corr.neighbours())
+    # where a syntax error is reported: peggie's furthest failure (line, column, quoted line) vs the model's parseE (theorems of Props/C07c)
+    from recipe_grid.parser import parse as rg_parse
+    single = [t[0] for t in tl if len(t) == 1] + list(parser_corr.EDGE_CASES)
+    for t, m in zip(single, run.ask([sexp.tag("parse-err", sexp.s(t)) for t in single])):
+        try:
+            rg_parse(t)
+            real_p = ("ok",)
+        except ParseError as e:
+            real_p = ("syntax", e.line, e.column, e.snippet)
+        except RecursionError:
+            continue
+        except Exception:  # noqa  (after a successful parse: compared below as an outcome of compile)
+            real_p = ("ok",)
+        model_p = ("ok",) if tuple(m) == ("ok",) else ("syntax", m[2], m[3], m[4])
+        run.case(("parse-err", t), real_p[0] == "syntax", kind="syntax-position:" + real_p[0])
+        run.groups["ParseError line/column/snippet vs parseE"] += 1
+        if real_p != model_p:
+            run.disagree("parse-err", t, repr(real_p)[:300], repr(model_p)[:300])
     rep = run.ask(model_requests(tl))
     for t, m in zip(tl, rep):
         real = real_outcome(t)
